@@ -218,11 +218,12 @@ def gen_cases(ctx):
             c['single'] = [[rng.randrange(nd), rng.randrange(nd)] for _ in range(5)]
         if bbox:
             bbs = []
-            for _ in range(3):
+            for kb in range(3):
                 bb = []
                 for sp in kvs:
                     n = kv_spans(sp)
-                    a = rng.randint(0, n - 1)
+                    # the first box starts at a non-zero cell in every direction that has one
+                    a = rng.randint(1, n - 1) if (kb == 0 and n >= 2) else rng.randint(0, n - 1)
                     b = rng.randint(a + 1, n)
                     bb.append([a, b])
                 bbs.append(bb)
@@ -257,6 +258,16 @@ def gen_cases(ctx):
             d = CUSTOM[name]['dim']
             add(None, d, rng.choice(['qa', 'unit']) if d == 2 else 'line', bool(rng.getrandbits(1)), False,
                 CUSTOM[name]['symmetric'], custom=name)
+        # on-demand bounding boxes on spaces whose degree differs between the axes (offsets are counted in
+        # quadrature nodes of the common rule nqp = max degree + 1), both orders of the degrees
+        for form, geo in (('mass', 'qa'), ('stiff', 'unit')):
+            degs = rng.sample([1, 2, 3], 2)
+            kk = []
+            for pdeg in degs:
+                nsp = rng.randint(3, 4)
+                kk.append([pdeg, nsp, 1] if rng.random() < 0.5 or pdeg == 1 else
+                          [pdeg, open_knots(pdeg, [k / nsp for k in range(1, nsp)], [rng.choice([1, 2]) for _ in range(nsp - 1)])])
+            add(form, 2, geo, False, False, True, bbox=True, kvs=kk)
         # families of spaces assembled one after the other IN ONE PROCESS: same degree, same breakpoints, same
         # number of dofs, the repeated interior knot at different breakpoints; then refined, coarsened, and the
         # first space again (anything remembered from an earlier space must not leak into a later one)
